@@ -277,6 +277,40 @@ Definition single_section_fn (tbl : list row) (fn : string) (need_ex : bool) : b
 Definition single_section (tbl : list row) : bool :=
   forallb (fun p => single_section_fn tbl (fst p) (snd p)) kv_methods.
 
+(* Granularity of the cache operations: the calls of the persistence layer
+   and of cache methods made from a function that works on a cache. The
+   session model treats cache.Get/Set/Delete/compact and PurgeSessions as
+   atomic steps; that is adequate when every such call happens with the cache
+   mutex held exclusively inside a function whose whole body is one critical
+   section of that mutex (Lock; defer Unlock at the top, nothing else), or
+   inside a "caller holds the lock" helper. *)
+Record cache_call_row := mkCacheCall {
+  cc_func : string;
+  cc_file : string;
+  cc_line : N;
+  cc_callee : string;
+  cc_cache : string;           (* the expression naming the cache in this function *)
+  cc_held : list held_entry;
+  cc_go : N;
+  cc_whole : bool              (* body = Lock(cache); defer Unlock(cache); ... with no other lock operation on it *)
+}.
+
+Definition cache_call_ok (c : cache_call_row) : bool :=
+  N.eqb (cc_go c) 0 &&
+  (mem_str (cc_func c) caller_holds ||
+   (cc_whole c &&
+    match lookup_held (cc_cache c) (cc_held c) with
+    | Some (Ex, _) => true
+    | _ => false
+    end)).
+
+(* the cache operations the session model takes as atomic all appear *)
+Definition cache_ops : list string :=
+  ["cache.Get"; "cache.Set"; "cache.Delete"; "cache.compact"; "PurgeSessions"].
+
+Definition cache_calls_cover (cs : list cache_call_row) : bool :=
+  forallb (fun f => existsb (fun c => String.eqb (cc_func c) f) cs) cache_ops.
+
 (* the functions the table must cover *)
 Definition required_functions : list string :=
   ["Start"; "Session.RegenerateID"; "Session.Destroy"; "Session.LogIn"; "Session.LogOut";
